@@ -226,7 +226,7 @@ def run_shard(spec, ctx):
                         ctx.evaluations += len(vals) - 1
                         ctx.case([start, end], True, sample={'call': f'Integer({start}, {end})', 'numerals': '0..1400 with 0-2 leading zeros'}
                                  if k % 500 == 0 else None)
-                guarded(ctx, {'mode': 'exact', 'start': start, 'end': end, 'numerals': [str(start), str(end + 1), '0' + str(end)]}, one_range)
+                guarded(ctx, {'mode': 'exact', 'start': start, 'end': end, 'numerals': [str(start), str(end + 1), '0' + str(end)]}, one_range, secs=120)
         ctx.exhaustive['(range, numeral) pairs: ranges within 0..130 x numerals 0..1400 x 0-2 leading zeros'] = n
     else:
         run_hypothesis(ctx, gen_case(), check_case, spec['examples'])
